@@ -73,20 +73,26 @@ static std::string opstr(const Op& o) { return "op(" + std::to_string(o.kind) + 
 // ---------------------------------------------------------------------------------------------- adapters
 // Every adapter: struct St { ... containers ... }; static St* make(); gen; apply; snap; probe; relaxed
 enum { K_ADD_C = 0, K_ADD_M, K_REMOVE, K_EXTRACT, K_RESERVE, K_SHRINK, K_SETCOUNT, K_SETCOUNT_V, K_COPY_CTOR, K_ASSIGN_AUX,
-	K_AUX_ADD, K_CLEAR, K_BRACKET, K_REMOVE_KEY, K_ADD_VAR, K_REINSERT, K_NKINDS };
+	K_AUX_ADD, K_CLEAR, K_BRACKET, K_REMOVE_KEY, K_ADD_VAR, K_REINSERT, K_CTOR_FILL, K_CTOR_RANGE, K_CTOR_ILIST, K_ADD_POS, K_REMOVE_ITER, K_ADD_ITER,
+	K_REMOVE_VALUES, K_NKINDS };
+static int g_dist = kit::LOWBITS;     // hash distribution of the current case (chosen from the seed)
 
-template<typename E, size_t IntCap>
+template<typename E, size_t IntCap, typename TMM = MM>
 struct ArrayAd
 {
-	typedef momo::Array<E, MM, momo::ArrayItemTraits<E, MM>, momo::ArraySettings<IntCap>> Cont;
-	struct St { Cont c, aux; St() : c(MM(1)), aux(MM(1)) {} };
+	typedef momo::Array<E, TMM, momo::ArrayItemTraits<E, TMM>, momo::ArraySettings<IntCap>> Cont;
+	static_assert(Cont::internalCapacity == IntCap, "internal capacity");
+	struct St { Cont c, aux; St() : c(TMM(1)), aux(TMM(1)) {} };
 	static Op gen(Rng& r, const St& s)
 	{
 		static const int kinds[] = { K_ADD_C, K_ADD_C, K_ADD_C, K_ADD_M, K_ADD_M, K_ADD_VAR, K_REMOVE, K_RESERVE, K_SHRINK, K_SETCOUNT, K_SETCOUNT_V,
-			K_COPY_CTOR, K_ASSIGN_AUX, K_AUX_ADD, K_AUX_ADD };
+			K_COPY_CTOR, K_ASSIGN_AUX, K_AUX_ADD, K_AUX_ADD, K_CTOR_FILL, K_CTOR_RANGE };
 		Op o; o.kind = kinds[r.below(sizeof(kinds) / sizeof(int))]; o.a = int64_t(r.below(40)); o.b = int64_t(r.below(3));
 		if (o.kind == K_RESERVE) o.a = int64_t(s.c.GetCount() + r.below(12));
 		if (o.kind == K_SETCOUNT || o.kind == K_SETCOUNT_V) o.a = int64_t(r.below(2) ? s.c.GetCount() + r.below(9) : r.below(s.c.GetCount() + 1));
+		// growth bands of ArraySettings::GrowCapacity (<= 2, <= 64 doubling, < 150 linear, then * 1.46): cross 64 and 150 now and then
+		if ((o.kind == K_SETCOUNT_V || o.kind == K_RESERVE) && r.below(6) == 0) { static const int big[] = { 63, 64, 65, 149, 150, 151, 230 }; o.a = big[r.below(7)]; }
+		if (o.kind == K_CTOR_FILL || o.kind == K_CTOR_RANGE) o.a = int64_t(r.below(7));
 		return o;
 	}
 	static void apply(St& s, const Op& o)
@@ -98,6 +104,8 @@ struct ArrayAd
 		case K_ADD_VAR: { E x(o.a); s.c.AddBackVar(static_cast<const E&>(x)); break; }
 		case K_REMOVE: if (s.c.GetCount() > 0) s.c.RemoveBack(); break;
 		case K_RESERVE: s.c.Reserve(size_t(o.a)); break;
+		case K_CTOR_FILL: { E x(o.b + 50); Cont t(size_t(o.a), static_cast<const E&>(x), TMM(1)); (void)t; break; }        // Array(count, item): a failed constructor leaves nothing
+		case K_CTOR_RANGE: { Cont t(s.c.GetItems(), s.c.GetItems() + std::min(s.c.GetCount(), size_t(o.a)), TMM(1)); (void)t; break; }
 		case K_SHRINK: s.c.Shrink(); break;
 		case K_SETCOUNT: s.c.SetCount(size_t(o.a)); break;
 		case K_SETCOUNT_V: { E x(o.b + 50); s.c.SetCount(size_t(o.a), x); break; }
@@ -189,7 +197,7 @@ struct SetAd
 	static Op gen(Rng& r, const St&)
 	{
 		static const int kinds[] = { K_ADD_C, K_ADD_C, K_ADD_C, K_ADD_C, K_ADD_M, K_ADD_M, K_ADD_M, K_REMOVE, K_REMOVE, K_EXTRACT, K_REINSERT, K_REINSERT, K_RESERVE,
-			K_COPY_CTOR, K_ASSIGN_AUX, K_AUX_ADD, K_AUX_ADD };
+			K_COPY_CTOR, K_ASSIGN_AUX, K_AUX_ADD, K_AUX_ADD, K_CTOR_ILIST, K_ADD_POS, K_ADD_POS, K_REMOVE_ITER };
 		Op o; o.kind = kinds[r.below(sizeof(kinds) / sizeof(int))]; o.a = int64_t(r.below(Maker::keyRange)); o.b = 0;
 		return o;
 	}
@@ -201,6 +209,9 @@ struct SetAd
 		case K_ADD_M: { E x(o.a); s.c.Insert(std::move(x)); break; }
 		case K_REMOVE: { E x(o.a); s.c.Remove(static_cast<const E&>(x)); break; }
 		case K_EXTRACT: { E x(o.a); auto p = s.c.Find(static_cast<const E&>(x)); if (Maker::found(s.c, p)) { auto ext = s.c.Extract(p); (void)ext; } break; }
+		case K_CTOR_ILIST: { E a(o.a), b(o.a + 1), c(o.a + 2); Cont t = Maker::make_ilist({ a, b, c, a }); (void)t; break; }   // initializer_list constructor (delegating, 806b9fe)
+		case K_ADD_POS: { E x(o.a); Maker::add_pos(s.c, static_cast<const E&>(x)); break; }   // Add(position, item): hash: the position returned by Find; tree: the upper bound
+		case K_REMOVE_ITER: { E x(o.a); auto p = s.c.Find(static_cast<const E&>(x)); if (Maker::found(s.c, p)) s.c.Remove(p); break; }
 		case K_REINSERT:   // extract into a handle and insert the handle back: if Insert(ExtractedItem&&) throws, the handle must still own the item
 		{
 			E x(o.a); auto p = s.c.Find(static_cast<const E&>(x));
@@ -230,7 +241,7 @@ struct SetAd
 	{
 		size_t visited = 0; for (const E& e : s.c) { (void)e; ++visited; }
 		if (visited != s.c.GetCount()) { why = "traversal visits " + std::to_string(visited) + " items, GetCount() = " + std::to_string(s.c.GetCount()); return false; }
-		if (o.kind != K_ADD_C && o.kind != K_ADD_M) return true;
+		if (o.kind != K_ADD_C && o.kind != K_ADD_M && o.kind != K_ADD_POS) return true;
 		bool was = false; for (size_t i = 1; i < size_t(pre[0]) + 1 && i < pre.size(); ++i) if (pre[i] == o.a) was = true;
 		E x(o.a);
 		if (s.c.ContainsKey(static_cast<const E&>(x)) != was) { why = std::string("the key of the failed insertion is ") + (was ? "lost" : "found although it was never inserted"); return false; }
@@ -339,7 +350,7 @@ struct MultiMapAd
 	static Op gen(Rng& r, const St&)
 	{
 		static const int kinds[] = { K_ADD_C, K_ADD_C, K_ADD_C, K_ADD_M, K_ADD_M, K_ADD_M, K_ADD_VAR, K_REMOVE, K_REMOVE, K_REMOVE_KEY,
-			K_COPY_CTOR, K_ASSIGN_AUX, K_AUX_ADD, K_AUX_ADD };
+			K_COPY_CTOR, K_ASSIGN_AUX, K_AUX_ADD, K_AUX_ADD, K_ADD_ITER, K_ADD_ITER, K_ADD_ITER, K_REMOVE_VALUES };
 		Op o; o.kind = kinds[r.below(sizeof(kinds) / sizeof(int))]; o.a = int64_t(r.below(Maker::keyRange)); o.b = int64_t(r.below(1000));
 		return o;
 	}
@@ -352,6 +363,8 @@ struct MultiMapAd
 		case K_ADD_VAR: { K k(o.a); V v(o.b); s.c.AddVar(static_cast<const K&>(k), static_cast<const V&>(v)); break; }
 		case K_REMOVE: { K k(o.a); auto ki = s.c.Find(static_cast<const K&>(k)); if (!!ki && ki->GetCount() > 0) s.c.Remove(ki, size_t(o.b) % ki->GetCount()); break; }
 		case K_REMOVE_KEY: { K k(o.a); s.c.RemoveKey(static_cast<const K&>(k)); break; }
+		case K_ADD_ITER: { K k(o.a); V v(o.b); auto ki = s.c.Find(static_cast<const K&>(k)); if (!!ki) s.c.Add(ki, static_cast<const V&>(v)); else s.c.Add(static_cast<const K&>(k), static_cast<const V&>(v)); break; }   // Add(keyIter, value)
+		case K_REMOVE_VALUES: { K k(o.a); auto ki = s.c.Find(static_cast<const K&>(k)); if (!!ki) s.c.RemoveValues(ki); break; }
 		case K_COPY_CTOR: { Cont t(s.c); (void)t; break; }
 		case K_ASSIGN_AUX: s.c = s.aux; break;
 		case K_AUX_ADD: { K k(o.a + 100); V v(o.b); s.aux.Add(static_cast<const K&>(k), static_cast<const V&>(v)); break; }
@@ -382,7 +395,7 @@ struct MultiMapAd
 };
 
 // ---------------------------------------------------------------------------------------------- engine
-struct Stats { uint64_t ops = 0, points = 0, thrown = 0, nontrivial = 0, swallowed = 0, reschg = 0; };
+struct Stats { uint64_t ops = 0, points = 0, thrown = 0, nontrivial = 0, swallowed = 0, reschg = 0, maxcount = 0, thrownk[3] = { 0, 0, 0 }, opk[K_NKINDS] = {}, thrown_opk[K_NKINDS] = {}; };
 
 template<typename Ad>
 static std::string run_history(uint64_t seed, size_t nops, bool complete, Stats& st)
@@ -415,12 +428,13 @@ static std::string run_history(uint64_t seed, size_t nops, bool complete, Stats&
 			Ad::apply(s, ops[i]);
 			steps[0] = W().steps_alloc; steps[1] = W().steps_copy; steps[2] = W().steps_func;
 		}
-		++st.ops;
+		++st.ops; ++st.opk[ops[i].kind];
 		if (steps[0] > 0 && steps[1] + steps[2] > 1) ++st.nontrivial;
 		for (int kind = 0; kind < 3; ++kind)
 		{
 			std::vector<uint64_t> ks;
-			if (complete || steps[kind] <= 4) for (uint64_t k = 0; k < steps[kind]; ++k) ks.push_back(k);
+			// allocations are few per operation and each one guards a distinct roll-back path: always enumerate all of them
+			if (complete || steps[kind] <= 4 || (kind == 0 && steps[kind] <= 24)) for (uint64_t k = 0; k < steps[kind]; ++k) ks.push_back(k);
 			else { ks.push_back(0); ks.push_back(1); ks.push_back(steps[kind] - 1); ks.push_back(1 + rng.below(steps[kind] - 1)); ks.push_back(steps[kind] / 2); }
 			std::sort(ks.begin(), ks.end()); ks.erase(std::unique(ks.begin(), ks.end()), ks.end());
 			for (uint64_t k : ks)
@@ -444,7 +458,8 @@ static std::string run_history(uint64_t seed, size_t nops, bool complete, Stats&
 					W().disarm();
 					if (thrown)
 					{
-						++st.thrown;
+						++st.thrown; ++st.thrownk[kind]; ++st.thrown_opk[ops[i].kind];
+						if (!pre.empty() && pre[0] > int64_t(st.maxcount)) st.maxcount = uint64_t(pre[0]);
 						if (!W().errors.empty()) viol = "kit protocol error: " + W().errors[0];
 						Snap post; Ad::snap(s, post);
 						if (viol.empty() && !W().errors.empty()) viol = "kit protocol error while reading the container back: " + W().errors[0];
@@ -456,8 +471,8 @@ static std::string run_history(uint64_t seed, size_t nops, bool complete, Stats&
 						}
 						if (viol.empty() && W().live_objs() != objs0) viol = "live element objects " + std::to_string(objs0) + " -> " + std::to_string(W().live_objs());
 						if (W().live_blocks() != blocks0 || W().bytes_live != bytes0) ++st.reschg;
-						if (viol.empty() && ops[i].kind == K_COPY_CTOR && (W().live_blocks() != blocks0 || W().bytes_live != bytes0))
-							viol = "failed copy constructor left memory allocated";
+						if (viol.empty() && (ops[i].kind == K_COPY_CTOR || ops[i].kind == K_CTOR_FILL || ops[i].kind == K_CTOR_RANGE || ops[i].kind == K_CTOR_ILIST) && (W().live_blocks() != blocks0 || W().bytes_live != bytes0))
+							viol = "failed constructor left memory allocated";
 						std::string why;
 						if (viol.empty() && !Ad::check_after(s, ops[i], pre, why)) viol = why;
 						if (viol.empty() && !W().errors.empty()) viol = "kit protocol error during the after-failure checks: " + W().errors[0];
@@ -481,25 +496,32 @@ static std::string run_history(uint64_t seed, size_t nops, bool complete, Stats&
 template<bool XC> struct HMapSettings : momo::HashMapSettings { static const momo::ExtraCheckMode extraCheckMode = XC ? momo::ExtraCheckMode::bydefault : momo::ExtraCheckMode::nothing; };
 template<bool XC> struct TMapSettings : momo::TreeMapSettings { static const momo::ExtraCheckMode extraCheckMode = XC ? momo::ExtraCheckMode::bydefault : momo::ExtraCheckMode::nothing; };
 struct HMMapSettings : momo::HashMultiMapSettings { static const momo::ExtraCheckMode extraCheckMode = momo::ExtraCheckMode::nothing; };
-template<typename E, typename Bucket> struct HSetMaker
+template<typename E, typename Bucket, size_t EXPECT> struct HSetMaker
 {
 	typedef momo::HashTraitsStd<E, kit::Hash, kit::Eq, Bucket> Traits;
 	typedef momo::HashSet<E, Traits, MM> Cont;
+	static_assert(Cont::Bucket::maxCount == EXPECT, "unexpected bucket class selected");
 	static const int keyRange = 48;
 	static const size_t fill = 26;
-	static Cont make() { return Cont(Traits(8, kit::Hash(kit::LOWBITS)), MM(1)); }
+	static Cont make() { return Cont(Traits(8, kit::Hash(g_dist)), MM(1)); }
+	static Cont make_ilist(std::initializer_list<E> il) { return Cont(il, Traits(8, kit::Hash(g_dist)), MM(1)); }
 	static void reserve(Cont& c, size_t n) { c.Reserve(n); }
 	template<typename P> static bool found(const Cont&, const P& p) { return !!p; }
+	static void add_pos(Cont& c, const E& x) { auto p = c.Find(x); if (!p) c.Add(p, x); }
 };
 template<typename E, typename Node> struct TSetMaker
 {
 	typedef momo::TreeTraitsStd<E, kit::Less, false, Node> Traits;
 	typedef momo::TreeSet<E, Traits, MM> Cont;
 	static const int keyRange = 64;
-	static const size_t fill = 0;
+	// small nodes: every other history starts with 30 ascending insertions, enough for split cascades through two levels
+	// (leaf + internal node + new root = 5 nodes built aside: the Relocator's inline node list of 4 overflows)
+	static const size_t fill = (Node::maxCapacity <= 4) ? 30 : 0;
 	static Cont make() { return Cont(Traits(), MM(1)); }
+	static Cont make_ilist(std::initializer_list<E> il) { return Cont(il, Traits(), MM(1)); }
 	static void reserve(Cont&, size_t) {}
 	template<typename P> static bool found(const Cont& c, const P& p) { return p != c.GetEnd(); }
+	static void add_pos(Cont& c, const E& x) { if (!c.ContainsKey(x)) c.Add(c.GetUpperBound(x), x); }
 };
 template<typename K, typename V, typename Bucket, bool XC = false> struct HMapMaker
 {
@@ -507,7 +529,7 @@ template<typename K, typename V, typename Bucket, bool XC = false> struct HMapMa
 	typedef momo::HashMap<K, V, Traits, MM, momo::HashMapKeyValueTraits<K, V, MM>, HMapSettings<XC>> Cont;
 	static const int keyRange = 48;
 	static const size_t fill = 26;
-	static Cont make() { return Cont(Traits(8, kit::Hash(kit::LOWBITS)), MM(1)); }
+	static Cont make() { return Cont(Traits(8, kit::Hash(g_dist)), MM(1)); }
 	static void reserve(Cont& c, size_t n) { c.Reserve(n); }
 	template<typename P> static bool found(const Cont&, const P& p) { return !!p; }
 };
@@ -516,17 +538,17 @@ template<typename K, typename V, typename Node, bool XC = false> struct TMapMake
 	typedef momo::TreeTraitsStd<K, kit::Less, false, Node> Traits;
 	typedef momo::TreeMap<K, V, Traits, MM, momo::TreeMapKeyValueTraits<K, V, MM>, TMapSettings<XC>> Cont;
 	static const int keyRange = 64;
-	static const size_t fill = 0;
+	static const size_t fill = (Node::maxCapacity <= 4) ? 30 : 0;
 	static Cont make() { return Cont(Traits(), MM(1)); }
 	static void reserve(Cont&, size_t) {}
 	template<typename P> static bool found(const Cont& c, const P& p) { return p != c.GetEnd(); }
 };
-template<typename K, typename V> struct HMMapMaker
+template<typename K, typename V, int KR = 24> struct HMMapMaker
 {
 	typedef momo::HashTraitsStd<K, kit::Hash, kit::Eq> Traits;
 	typedef momo::HashMultiMap<K, V, Traits, MM, momo::HashMultiMapKeyValueTraits<K, V, MM>, HMMapSettings> Cont;
-	static const int keyRange = 24;
-	static Cont make() { return Cont(Traits(8, kit::Hash(kit::LOWBITS)), MM(1)); }
+	static const int keyRange = KR;
+	static Cont make() { return Cont(Traits(8, kit::Hash(g_dist)), MM(1)); }
 };
 
 
@@ -547,10 +569,70 @@ template<typename E, typename Bucket, size_t expectMax> struct OSetMaker
 	static const int keyRange = 48;
 	static const size_t fill = 26;
 	static Cont make() { return Cont(Traits(), MM(1)); }
+	static Cont make_ilist(std::initializer_list<E> il) { return Cont(il, Traits(), MM(1)); }
+	static void reserve(Cont& c, size_t n) { c.Reserve(n); }
+	template<typename P> static bool found(const Cont&, const P& p) { return !!p; }
+	static void add_pos(Cont& c, const E& x) { auto p = c.Find(x); if (!p) c.Add(p, x); }
+};
+template<typename K, typename V, typename Bucket, size_t expectMax> struct OMapMaker
+{
+	typedef momo::HashTraits<K, Bucket> Traits;
+	typedef momo::HashMap<K, V, Traits, MM, momo::HashMapKeyValueTraits<K, V, MM>, HMapSettings<false>> Cont;
+	static_assert(Cont::HashSet::Bucket::maxCount == expectMax, "unexpected bucket type selected");
+	static const int keyRange = 48;
+	static const size_t fill = 26;
+	static Cont make() { return Cont(Traits(), MM(1)); }
 	static void reserve(Cont& c, size_t n) { c.Reserve(n); }
 	template<typename P> static bool found(const Cont&, const P& p) { return !!p; }
 };
 #endif
+
+// a STATELESS (empty) memory manager over the kit registry: together with checkVersion = false it selects the INLINE crew
+// (SetCrew<..., false>: traits and manager stored inside the container, no crew block)
+struct MM0
+{
+	explicit MM0(int = 0) noexcept {}
+	MM0(MM0&&) noexcept {}
+	MM0(const MM0&) noexcept {}
+	MM0& operator=(const MM0&) = delete;
+	void* Allocate(size_t size) { return kit::raw_allocate(1, size); }
+	void Deallocate(void* ptr, size_t size) noexcept { kit::raw_deallocate(1, ptr, size); }
+	bool IsEqual(const MM0&) const noexcept { return true; }
+};
+struct HSetSettingsNV : momo::HashSetSettings { static const bool checkVersion = false; };
+struct TSetSettingsNV : momo::TreeSetSettings { static const bool checkVersion = false; };
+template<typename E> struct HSetMakerNV
+{
+	typedef momo::HashTraitsStd<E, kit::Hash, kit::Eq, momo::HashBucketLimP4<>> Traits;
+	typedef momo::HashSet<E, Traits, MM0, momo::HashSetItemTraits<E, MM0>, HSetSettingsNV> Cont;
+	static_assert(std::is_same<typename Cont::Crew, momo::internal::SetCrew<Traits, MM0, false, false>>::value, "inline crew expected");
+	static const int keyRange = 48;
+	static const size_t fill = 26;
+	static Cont make() { return Cont(Traits(8, kit::Hash(g_dist)), MM0()); }
+	static Cont make_ilist(std::initializer_list<E> il) { return Cont(il, Traits(8, kit::Hash(g_dist)), MM0()); }
+	static void reserve(Cont& c, size_t n) { c.Reserve(n); }
+	template<typename P> static bool found(const Cont&, const P& p) { return !!p; }
+	static void add_pos(Cont& c, const E& x) { auto p = c.Find(x); if (!p) c.Add(p, x); }
+};
+template<typename E> struct TSetMakerNV
+{
+	typedef momo::TreeTraitsStd<E, kit::Less, false, momo::TreeNode<4, 2, momo::MemPoolParams<2>>> Traits;
+	typedef momo::TreeSet<E, Traits, MM0, momo::TreeSetItemTraits<E, MM0>, TSetSettingsNV> Cont;
+	static_assert(std::is_same<typename Cont::Crew, momo::internal::SetCrew<Traits, MM0, false, false>>::value, "inline crew expected");
+	static const int keyRange = 64;
+	static const size_t fill = 30;
+	static Cont make() { return Cont(Traits(), MM0()); }
+	static Cont make_ilist(std::initializer_list<E> il) { return Cont(il, Traits(), MM0()); }
+	static void reserve(Cont&, size_t) {}
+	template<typename P> static bool found(const Cont& c, const P& p) { return p != c.GetEnd(); }
+	static void add_pos(Cont& c, const E& x) { if (!c.ContainsKey(x)) c.Add(c.GetUpperBound(x), x); }
+};
+
+// the INTENDED classes are really instantiated
+static_assert(momo::internal::ObjectManager<kit::ElemNtm, MM>::isNothrowRelocatable && momo::internal::ObjectManager<kit::ElemNtm, MM>::isNothrowMoveConstructible, "ElemNtm");
+static_assert(!momo::internal::ObjectManager<kit::ElemCpo, MM>::isNothrowRelocatable && !momo::internal::ObjectManager<kit::ElemCpo, MM>::isNothrowAnywayAssignable, "ElemCpo must reach the copy-all paths");
+static_assert(!momo::internal::ObjectManager<kit::ElemThm, MM>::isNothrowRelocatable && !momo::internal::ObjectManager<kit::ElemThm, MM>::isNothrowMoveConstructible, "ElemThm with the explicit relocator");
+static_assert(momo::internal::ObjectManager<kit::ElemTriv, kit::MMR>::isTriviallyRelocatable, "ElemTriv");
 
 template<typename Ad> static void go(uint64_t seed, size_t nops, bool complete)
 {
@@ -558,8 +640,13 @@ template<typename Ad> static void go(uint64_t seed, size_t nops, bool complete)
 	std::string r = run_history<Ad>(seed, nops, complete, st);
 	W().disarm();
 	if (!r.empty()) { printf("%s\n", r.c_str()); W().errors.clear(); return; }
-	printf("ok ops=%llu points=%llu thrown=%llu nontrivial=%llu swallowed=%llu reschg=%llu\n", (unsigned long long)st.ops, (unsigned long long)st.points,
+	printf("ok ops=%llu points=%llu thrown=%llu nontrivial=%llu swallowed=%llu reschg=%llu", (unsigned long long)st.ops, (unsigned long long)st.points,
 		(unsigned long long)st.thrown, (unsigned long long)st.nontrivial, (unsigned long long)st.swallowed, (unsigned long long)st.reschg);
+	// measured distribution: exceptions per failure kind, largest container size at a failure, hash distribution, per-operation counts
+	printf(" fk=%llu/%llu/%llu maxcount=%llu dist=%d opk=", (unsigned long long)st.thrownk[0], (unsigned long long)st.thrownk[1], (unsigned long long)st.thrownk[2],
+		(unsigned long long)st.maxcount, g_dist);
+	for (int k = 0; k < K_NKINDS; ++k) if (st.opk[k]) printf("%d:%llu:%llu,", k, (unsigned long long)st.opk[k], (unsigned long long)st.thrown_opk[k]);
+	printf("\n");
 }
 
 typedef momo::TreeNode<4, 2, momo::MemPoolParams<2>> Node4;
@@ -573,9 +660,10 @@ template<typename E> static bool dispatch(const std::string& cfg, uint64_t seed,
 	if (cfg == "segarray") { go<SegAd<E>>(seed, nops, complete); return true; }
 #endif
 #if PART == 0 || PART == 2
-	if (cfg == "hset_limp4") { typedef HSetMaker<E, momo::HashBucketLimP4<>> Mk; go<SetAd<E, typename Mk::Cont, Mk>>(seed, nops, complete); return true; }
-	if (cfg == "hset_open8") { typedef HSetMaker<E, momo::HashBucketOpen8> Mk; go<SetAd<E, typename Mk::Cont, Mk>>(seed, nops, complete); return true; }
-	if (cfg == "hset_limp") { typedef HSetMaker<E, momo::HashBucketLimP<>> Mk; go<SetAd<E, typename Mk::Cont, Mk>>(seed, nops, complete); return true; }
+	if (cfg == "hset_limp4") { typedef HSetMaker<E, momo::HashBucketLimP4<>, 4> Mk; go<SetAd<E, typename Mk::Cont, Mk>>(seed, nops, complete); return true; }
+	if (cfg == "hset_open8") { typedef HSetMaker<E, momo::HashBucketOpen8, 3> Mk;   /* slow hash => really BucketOpen2N2<3> */ go<SetAd<E, typename Mk::Cont, Mk>>(seed, nops, complete); return true; }
+	if (cfg == "hset_limp4_nv") { typedef HSetMakerNV<E> Mk; go<SetAd<E, typename Mk::Cont, Mk>>(seed, nops, complete); return true; }
+	if (cfg == "hset_limp") { typedef HSetMaker<E, momo::HashBucketLimP<>, momo::HashBucketLimP<>::maxCount> Mk; go<SetAd<E, typename Mk::Cont, Mk>>(seed, nops, complete); return true; }
 #endif
 #if PART == 0 || PART == 3
 	if (cfg == "hmap_limp4") { typedef HMapMaker<E, E, momo::HashBucketLimP4<>> Mk; go<MapAd<E, E, typename Mk::Cont, Mk>>(seed, nops, complete); return true; }
@@ -586,16 +674,19 @@ template<typename E> static bool dispatch(const std::string& cfg, uint64_t seed,
 #endif
 #if PART == 0 || PART == 8
 	if (cfg == "hmmap") { typedef HMMapMaker<E, E> Mk; go<MultiMapAd<E, E, typename Mk::Cont, Mk>>(seed, nops, complete); return true; }
+	if (cfg == "hmmap_k3") { typedef HMMapMaker<E, E, 3> Mk; go<MultiMapAd<E, E, typename Mk::Cont, Mk>>(seed, nops, complete); return true; }   // few keys: value arrays cross valueArrayMaxFastCount = 7
 #endif
 #if PART == 0 || PART == 9
 	if (cfg == "hset_openn1_1") { typedef OSetMaker<E, momo::HashBucketOpenN1<1>, 1> Mk; go<SetAd<E, typename Mk::Cont, Mk>>(seed, nops, complete); return true; }
 	if (cfg == "hset_openn1_3") { typedef OSetMaker<E, momo::HashBucketOpenN1<3>, 3> Mk; go<SetAd<E, typename Mk::Cont, Mk>>(seed, nops, complete); return true; }
 	if (cfg == "hset_openn1_7") { typedef OSetMaker<E, momo::HashBucketOpenN1<7>, 7> Mk; go<SetAd<E, typename Mk::Cont, Mk>>(seed, nops, complete); return true; }
 	if (cfg == "hset_open8r") { typedef OSetMaker<E, momo::HashBucketOpen8, 7> Mk; go<SetAd<E, typename Mk::Cont, Mk>>(seed, nops, complete); return true; }
+	if (cfg == "hmap_open8r") { typedef OMapMaker<E, E, momo::HashBucketOpen8, 7> Mk; go<MapAd<E, E, typename Mk::Cont, Mk>>(seed, nops, complete); return true; }
 #endif
 #if PART == 0 || PART == 4
 	if (cfg == "tset_n4") { typedef TSetMaker<E, Node4> Mk; go<SetAd<E, typename Mk::Cont, Mk>>(seed, nops, complete); return true; }
 	if (cfg == "tset_n4i") { typedef TSetMaker<E, Node4i> Mk; go<SetAd<E, typename Mk::Cont, Mk>>(seed, nops, complete); return true; }
+	if (cfg == "tset_n4_nv") { typedef TSetMakerNV<E> Mk; go<SetAd<E, typename Mk::Cont, Mk>>(seed, nops, complete); return true; }
 	if (cfg == "tset_n32") { typedef TSetMaker<E, Node32> Mk; go<SetAd<E, typename Mk::Cont, Mk>>(seed, nops, complete); return true; }
 #endif
 #if PART == 0 || PART == 5
@@ -620,6 +711,7 @@ template<typename K, typename V> static bool dispatch_mixed(const std::string& c
 #endif
 #if PART == 0 || PART == 8
 	if (cfg == "hmmap") { typedef HMMapMaker<K, V> Mk; go<MultiMapAd<K, V, typename Mk::Cont, Mk>>(seed, nops, complete); return true; }
+	if (cfg == "hmmap_k3") { typedef HMMapMaker<K, V, 3> Mk; go<MultiMapAd<K, V, typename Mk::Cont, Mk>>(seed, nops, complete); return true; }
 #endif
 #if PART == 0 || PART == 5
 	if (cfg == "tmap_n4") { typedef TMapMaker<K, V, Node4> Mk; go<MapAd<K, V, typename Mk::Cont, Mk>>(seed, nops, complete); return true; }
@@ -639,7 +731,9 @@ int main()
 		std::istringstream is(line); std::string cfg, cat, mode; uint64_t seed = 0; size_t nops = 0;
 		is >> cfg >> cat >> mode >> seed >> nops;
 		bool complete = (mode == "t"); bool done = false;
+		{ static const int dists[] = { kit::LOWBITS, kit::CONST, kit::IDENT, kit::MOD7, kit::LOWBITS, kit::MULT }; g_dist = dists[(seed / 2) % 6]; }
 #if PART == 0 || PART == 1
+		if (cfg == "array_triv" && cat == "R") { go<ArrayAd<kit::ElemTriv, 0, kit::MMR>>(seed, nops, complete); done = true; }   // MemManager::Reallocate path
 		if (cfg == "array_ic4" && cat == "N") { go<ArrayAd<kit::ElemNtm, 4>>(seed, nops, complete); done = true; }
 		if (cfg == "array_ic4" && cat == "C") { go<ArrayAd<kit::ElemCpo, 4>>(seed, nops, complete); done = true; }
 		if (cfg == "array_ic4" && cat == "T") { go<ArrayAd<kit::ElemThm, 4>>(seed, nops, complete); done = true; }
